@@ -73,6 +73,16 @@ void Library::copy_from(const Library& library, bool deep_copy) {
             *dst = (Cell*)allocate_clear(sizeof(Cell));
             (*dst)->copy_from(**src, NULL, true);
         }
+        // References between the copied cells must designate the copies, not the source cells
+        for (uint64_t i = 0; i < cell_array.count; i++) {
+            Array<Reference*>& references = cell_array[i]->reference_array;
+            for (uint64_t j = 0; j < references.count; j++) {
+                Reference* reference = references[j];
+                if (reference->type != ReferenceType::Cell) continue;
+                uint64_t index = library.cell_array.index(reference->cell);
+                if (index < library.cell_array.count) reference->cell = cell_array[index];
+            }
+        }
     } else {
         cell_array.copy_from(library.cell_array);
     }
